@@ -215,6 +215,8 @@ def c13(tier, seed):
         ntr += n
         shards.append(["@replay", "-in", path, "-mode", "intx", "-sample", "4000" if q else "60000", "-seed", str(seed)])
     shards += fam_shards([("intx", [])], seed, 2 if q else 24, 3 if q else 4, 40 if q else 120)
+    # the same over structures that share bucket names and keys (a set and a key/value pair both named ab/a, ...)
+    shards += fam_shards([("isointx", [])], seed, 1 if q else 12, 3 if q else 4, 40 if q else 120)
     rs = core.drive_and_validate(res, shards, core.dev_set(), "a result inside a write transaction (or the state it leaves) is not explained by running its operations in order on its start state",
                                  "two-operation transactions enumerated by TLC (DsGen) + random multi-operation transactions with reads and pops in between")
     res.cov["samples"] = core.sample_events(rs[-1]["trace"], 8, ops=None)
@@ -237,6 +239,8 @@ def c09(tier, seed):
             shards += fam_shards([("fill", ["-mode", mode, "-rw", rw])], seed, 1 if q else 12, 4, 25 if q else 60)
     shards += fam_shards([("mixed", []), ("fail", []), ("failkv", ["-mode", "keyonly"]), ("mergekv", ["-mode", "keyval"])],
                          seed + 7, 1 if q else 12, 3, 40 if q else 100)
+    # sparse mode: single-bucket key/value histories with keys of different lengths, Close/Open every ~12 transactions (as in C02)
+    shards += fam_shards([("kv", ["-mode", "sparse", "-rw", "fileio"]), ("kv", ["-mode", "sparse", "-rw", "mmap"])], seed + 9, 1 if q else 8, 3, 40 if q else 100)
     rs = core.drive_and_validate(res, shards, core.dev_set(), "Open failed (or served something else than the committed transactions) on a directory the library produced",
                                  "segments filled to exactly 0..47 bytes before their end, empty values, reads of never-written buckets, no-op operations, failed commits, merges; then Close/Open and shadow opens")
     res.cov["samples"] = core.sample_events(rs[0]["trace"], 6, ops={"open", "shadow"})
@@ -245,7 +249,7 @@ def c09(tier, seed):
     res.cov["rule"] = ("non-trivial = Open calls on library-produced directories (real reopen, shadow copy, copy after Merge); the only admitted "
                        "outcome is success with the contents Replay(log)")
     res.assumptions += ["crash images (a record being written when the process died) are exercised by the C10/C11/C16 checks with the same Open rule",
-                        "sparse-mode directories are covered by C02"]
+                        "sparse mode: single-bucket key/value histories only (as C02); multi-bucket, faulted and crashed sparse directories are outside this check"]
     return res.finish()
 
 
